@@ -24,6 +24,40 @@ PROPS = {
                         "client-side kernel timestamp faults are outside the property's quantifier and are not injected here",
                         "SCION half of the property: see C13/C15 worlds (not covered by this check)"],
     },
+    "C06": {
+        "level": "exploration",
+        "budget": {"quick": 60, "thorough": 900},
+        "runs": {"quick": 5000, "thorough": 1500000},
+        "rule": "one run = 1..8 simulated callers x 6..45 (handleRequest, updateTXTimestamp) pairs on the real timestamp store through the export shim, statement-level yields inside both functions "
+                "and the heap methods plus the simulator-aware mutex in 4/5 of the multi-caller runs, store capacity 2..16 (same eviction code as at 2^20), 1..5 recurring clients plus floods of one-shot clients; "
+                "requests crafted against what is on record: interleaved requests naming a recorded / never issued / other client's origin, equal receive and transmit fields, receive times colliding with "
+                "recorded ones, decreasing and repeated, clock readings before / at / after the receive time; kernel transmit timestamps present, equal to or earlier than the receive time, or missing; "
+                "non-trivial = at least 4 requests served; distinct = distinct event-log hash",
+        "components": {"real": ["core/server handleRequest, updateTXTimestamp, tssQueue (container/heap)", "net/ntp Time64"],
+                       "stub": dict(STUBS_COMMON, **{"listeners": "simulated callers (this check drives the two functions directly; the listeners themselves run in C03/C09)",
+                                                     "sync.Mutex in server.go": "simsync.Mutex (parks in the scheduler)"})},
+        "assumptions": ["store capacity is lowered through a variable that replaces the uses of the constant tssCap at build time; the statement's 2^20 itself is only asserted by the thorough tier's capacity run",
+                        "interleavings are explored at statement granularity; 'free of data races' is decided through atomicity (relation evaluated on snapshots at lock acquire/release), not with the race detector",
+                        "snapshots are taken by the scheduler-side hooks without the lock"],
+        "required_probes": ["interleaved-served", "dropped-without-kernel-stamp", "kernel-stamp-recorded"],
+    },
+    "C07": {
+        "level": "exploration",
+        "budget": {"quick": 60, "thorough": 900},
+        "runs": {"quick": 5000, "thorough": 1500000},
+        "rule": "one run = 1..8 simulated callers x 6..45 (handleRequest, updateTXTimestamp) pairs on the real timestamp store through the export shim, statement-level yields inside both functions "
+                "and the heap methods plus the simulator-aware mutex in 4/5 of the multi-caller runs, store capacity 2..16 (same eviction code as at 2^20), 1..5 recurring clients plus floods of one-shot clients; "
+                "requests crafted against what is on record: interleaved requests naming a recorded / never issued / other client's origin, equal receive and transmit fields, receive times colliding with "
+                "recorded ones, decreasing and repeated, clock readings before / at / after the receive time; kernel transmit timestamps present, equal to or earlier than the receive time, or missing; "
+                "non-trivial = at least 4 requests served; distinct = distinct event-log hash",
+        "components": {"real": ["core/server handleRequest, updateTXTimestamp, tssQueue (container/heap)", "net/ntp Time64"],
+                       "stub": dict(STUBS_COMMON, **{"listeners": "simulated callers (this check drives the two functions directly; the listeners themselves run in C03/C09)",
+                                                     "sync.Mutex in server.go": "simsync.Mutex (parks in the scheduler)"})},
+        "assumptions": ["store capacity is lowered through a variable that replaces the uses of the constant tssCap at build time; the statement's 2^20 itself is only asserted by the thorough tier's capacity run",
+                        "interleavings are explored at statement granularity; 'free of data races' is decided through atomicity (relation evaluated on snapshots at lock acquire/release), not with the race detector",
+                        "snapshots are taken by the scheduler-side hooks without the lock"],
+        "required_probes": ["evicted", "stateless", "interleaved-served"],
+    },
     "C09": {
         "level": "exploration",
         "stall_is_violation": True,
@@ -118,7 +152,7 @@ NOT_APPLICABLE = {
 
 # Properties that the design claims but whose world is not built yet (kept current).
 NOT_YET = {p: "designed (DESIGN.md section 3) but the simulated world is not built yet; not claimed until its check runs"
-           for p in ["C05", "C06", "C07", "C08", "C10", "C11", "C13", "C14", "C15", "C20"]}
+           for p in ["C05", "C08", "C10", "C11", "C13", "C14", "C15", "C20"]}
 
 PROPS["C01"].update(
     level_text="seeded exploration of multi-round histories of the real synchronization loop with scripted sources (values over the whole int64 range, failures, late answers, sources that never answer) and admissible/inadmissible configurations; per-round invariants: exactly one correction, magnitude bounds from the statement, exact value when every source answered in time, correction no later than the round's timeout; start-up refusal of inadmissible settings. Evidence, not proof.",
@@ -136,6 +170,14 @@ PROPS["C03"].update(
     level_text="seeded exploration of exchange histories between the real IP client and the real IP listeners on a simulated network with loss, duplication, delay, reordering, clock offset/skew/steps and timestamp faults; for every accepted exchange the four combined timestamps are attributed to one exchange by the simulator's ground truth and the reported offset is compared with the true clock offset against half the true round-trip delay. Evidence, not proof.",
     level_note="IP transport only in this check; trusts the simulated kernel (timestamps, error queue) and clocks; 16 ns rounding allowance",
     technique="deterministic simulation with fault injection: seeded network/clock faults, ground-truth oracle per accepted exchange")
+PROPS["C06"].update(
+    level_text="seeded exploration of request/update histories and statement-level interleavings on the real store; every reply and every state change is judged by a relation written from the statement (receive timestamp, uniqueness, basic/interleaved structure, which transmit time may be served, what an update may change, no cross-client serving). Evidence, not proof.",
+    level_note="relational oracle on store snapshots taken at mutex acquire/release; the replacement choice inside a client's eight slots is left open as the statement does",
+    technique="deterministic simulation: seeded scheduler with statement-level yields, relational oracle on store snapshots")
+PROPS["C07"].update(
+    level_text="seeded exploration as for C06 plus store-wide invariants after every operation (map/heap agreement, back-pointers, heap order, 1..8 distinct exchanges per client, rank never older than the newest exchange, capacity) and the eviction rule (only the heap root, only for a request at least as recent, otherwise stateless). Evidence, not proof; capacity explored at 2..16 in this tier.",
+    level_note="'free of data races' is decided through its observable consequence (atomicity under statement-level interleaving), see DESIGN.md section 7",
+    technique="deterministic simulation: seeded scheduler with statement-level yields, store invariants and eviction relation on snapshots")
 PROPS["C09"].update(
     level_text="complete enumeration of the first-byte x length-class x trailer-class space against the running listeners plus seeded sampling of the rest (remaining header bytes, lengths, ports, duplicates); reply count, addressing, reply header and anti-reflection are decided by the simulated network's accounting. Enumeration is exhaustive for the stated sub-space only; everything else is evidence, not proof.",
     level_note="trusts the simulator's causality tracking of replies; listener hangs are detected by the wall-clock watchdog and reported as violations (stall) only if they reproduce",
